@@ -84,7 +84,7 @@ VelIsRotation       == pc = "run" => ReportedVelLon = (lon + Quarter) % N
 
 \* configurations handed to the driver (which crosses them with real dates and sites)
 Emit == (pc = "run" /\ k = MaxSteps) =>
-   PrintT("SITE " \o ToJson([startSec |-> startSec, dt |-> dt, steps |-> k]))
+   PrintT("SITE " \o ToJson([startSec |-> startSec, dt |-> dt, steps |-> k, lon |-> lon, theta0 |-> theta0]))
 
 Secs60      == 0..59
 DtsQuick    == {2, 7, 30, 60, 120, 300, 600, 900}
